@@ -385,6 +385,25 @@ def run_case(case):
                                              'root': case['root'], 'flavor': flavor,
                                              '__case__': sub(s)})
 
+        # ---- whatever else two spellings have in common: paths that compare equal hash
+        # equally, and equality is symmetric (letter case of drives, servers and components;
+        # nothing is demanded about WHETHER they are equal)
+        for alt in (s.swapcase(), s[:3].swapcase() + s[3:], s.upper()):
+            if alt == s:
+                continue
+            try:
+                q = P(alt, rootobj)
+            except ValueError:
+                continue
+            res.ev('law:eq-implies-hash:case-alternate')
+            e1, e2 = (q == p), (p == q)
+            if e1 != e2 or (e1 and hash(q) != hash(p)) or (e1 and len({p, q}) != 1):
+                res.violate(('equality', 'disagrees-with-hash' if e1 == e2 else 'asymmetric',
+                             'case-alternate'),
+                            {'string': s, 'alt': alt, 'root': case['root'], 'flavor': flavor,
+                             'equal': [e1, e2], 'hashes_equal': hash(q) == hash(p),
+                             '__case__': sub(s)})
+
         # ---- laws exercised through the API (contracts watch each call)
         drive_in_play = p.has_drive()
         try:
